@@ -1,5 +1,13 @@
 import PlumVerif.Props.C01Session
 import PlumVerif.Props.C04
+/-
+C01 on twin frames: byte-identical from the kind byte on (checksum included) under different headers.
+
+Headlines: `twin_frames_each_own_fields` (`readAll` on the concatenation: each call reports its own frame) and
+`twin_session_each_own_fields` / `twin_session_deliveries` (the same on the session machine `ReaderSession.session`,
+via `session_frames` for any back-to-back sequence).  `twin_deliveries_differ` is a remark about values.
+Object identity of what `read()` returns ("never handed out twice") is CORRESPONDENCE only: see registry_d/C01.py.
+-/
 namespace PlumVerif.C01
 open PlumVerif
 
@@ -50,8 +58,82 @@ theorem twin_frames_each_own_fields (f g : Fields) (e : Byte)
       rw [← hp]; exact hlen)
   simpa using h
 
-/-- the same on a reader session (`ReaderSession`): both frames arrive in one chunk; the two completed calls carry the
-fields of their own frames, in particular DIFFERENT fields when the headers differ -/
+/-- a call on a complete well-formed frame followed by anything does not block (session model) -/
+theorem blockedTaken_encoded (f : Fields) (e : Byte) (rest : List Byte) (hlen : f.payload.length + 10 ≤ 1000) :
+    blockedTaken (encodeWith f e ++ rest) = none := by
+  have hL := le16_roundtrip (f.payload.length + 10) (by omega)
+  unfold blockedTaken encodeWith
+  simp only [List.cons_append, scan, if_true, List.nil_append]
+  simp only [hL, hdr_eq, minLen_eq, maxLen_eq]
+  rw [if_neg (by omega)]
+  rw [if_neg (by simp)]
+
+theorem completedFuel_frames (fs : List (Fields × Byte)) (fuel : Nat) (hfuel : fs.length < fuel)
+    (hlen : ∀ p ∈ fs, p.1.payload.length + 10 ≤ 1000) :
+    completedFuel fuel (fs.flatMap fun p => encodeWith p.1 p.2) =
+      (fs.map (fun p => (classify p.1, p.1.wireLength)), 0, []) := by
+  induction fs generalizing fuel with
+  | nil =>
+    cases fuel with
+    | zero => simp at hfuel
+    | succ n => simp [completedFuel, blockedTaken, scan]
+  | cons p ps ih =>
+    cases fuel with
+    | zero => simp at hfuel
+    | succ n =>
+      simp only [List.flatMap_cons, completedFuel]
+      rw [blockedTaken_encoded p.1 p.2 _ (hlen p (by simp))]
+      simp only
+      rw [read_encoded p.1 p.2 _ (hlen p (by simp))]
+      have ih' := ih n (by simpa using hfuel) (fun q hq => hlen q (by simp [hq]))
+      simp [ih', encodeWith_length, Fields.wireLength]
+
+/-- **back-to-back frames on the session machine** (`Model/ReaderSession.session`, one chunk): the completed calls are
+exactly one per frame, in order, each with the outcome of ITS OWN frame and its own length; then the call that finds the
+stream empty is abandoned, and the end of the stream is reported -/
+theorem session_frames (fs : List (Fields × Byte)) (hlen : ∀ p ∈ fs, p.1.payload.length + 10 ≤ 1000) :
+    session [fs.flatMap fun p => encodeWith p.1 p.2] =
+      fs.map (fun p => SEv.call (classify p.1) p.1.wireLength) ++ [.abandoned 0, .call .connLost 0] := by
+  simp only [session, sessionFrom, completed, List.nil_append]
+  rw [completedFuel_frames fs _ (flatMap_encode_length fs) hlen]
+  simp [readAll, readAllFuel, readFrame_nil]
+
+/-- **the twin scenario on a reader SESSION** (headline of this file together with `twin_frames_each_own_fields`; round-8
+audit, item 9): both frames arrive in one chunk, byte-identical from the kind byte on; the session machine completes
+exactly two calls, the first with the outcome and length of `f`, the second with those of `g` -- when both pass the gates,
+`.delivered f` and `.delivered g`: each delivery carries the fields of ITS OWN frame. -/
+theorem twin_session_each_own_fields (f g : Fields) (e : Byte)
+    (hk : f.kind = g.kind) (hp : f.payload = g.payload)
+    (hx : f.rcpt ^^^ f.sender ^^^ f.etype ^^^ f.ever = g.rcpt ^^^ g.sender ^^^ g.etype ^^^ g.ever)
+    (hlen : f.payload.length + 10 ≤ 1000) :
+    (encodeWith f e).drop 7 = (encodeWith g e).drop 7 ∧
+    session [encodeWith f e ++ encodeWith g e] =
+      [.call (classify f) f.wireLength, .call (classify g) g.wireLength, .abandoned 0, .call .connLost 0] := by
+  refine ⟨twin_same_body f g e hk hp hx, ?_⟩
+  have h := session_frames [(f, e), (g, e)] (by
+    intro p hp'
+    simp only [List.mem_cons, List.not_mem_nil, or_false] at hp'
+    rcases hp' with rfl | rfl
+    · exact hlen
+    · show g.payload.length + 10 ≤ 1000
+      rw [← hp]; exact hlen)
+  simpa using h
+
+/-- the two deliveries of the twin session are the two frames' own fields -/
+theorem twin_session_deliveries (f g : Fields) (e : Byte)
+    (hk : f.kind = g.kind) (hp : f.payload = g.payload)
+    (hx : f.rcpt ^^^ f.sender ^^^ f.etype ^^^ f.ever = g.rcpt ^^^ g.sender ^^^ g.etype ^^^ g.ever)
+    (hlen : f.payload.length + 10 ≤ 1000)
+    (hf : classify f = .delivered f) (hg : classify g = .delivered g) :
+    session [encodeWith f e ++ encodeWith g e] =
+      [.call (.delivered f) f.wireLength, .call (.delivered g) g.wireLength, .abandoned 0, .call .connLost 0] := by
+  rw [(twin_session_each_own_fields f g e hk hp hx hlen).2, hf, hg]
+
+/-- remark only (constructor injectivity, NOT a statement about the reader): two delivered outcomes with different
+fields are different values.  What the reader does on twins is `twin_frames_each_own_fields` (`readAll`) and
+`twin_session_each_own_fields` / `twin_session_deliveries` (session machine).  That the implementation hands out a NEW
+object for each delivery and never the same object twice is outside the model (`Fields` are values without identity):
+it is checked by the correspondence harness only (harness/c01.py, object freshness). -/
 theorem twin_deliveries_differ (f g : Fields) (hf : classify f = .delivered f) (hg : classify g = .delivered g)
     (hne : f ≠ g) : classify f ≠ classify g := by
   rw [hf, hg]; intro h; injection h with h; exact hne h
